@@ -1,6 +1,8 @@
 # Copyright 2020 National Technology & Engineering Solutions of Sandia, LLC (NTESS).
 # Under the terms of Contract DE-NA0003525 with NTESS, the U.S. Government retains
 # certain rights in this software.
+from numbers import Integral, Real
+
 from jaqalpaq.core import (
     GateStatement,
     BlockStatement,
@@ -209,3 +211,8 @@ def generate_jaqal_value(val):
         return text
     elif isinstance(val, int):
         return str(val)
+    elif isinstance(val, Integral):
+        # e.g. a numpy integer handed to the builder
+        return str(int(val))
+    elif isinstance(val, Real):
+        return generate_jaqal_value(float(val))
